@@ -130,3 +130,13 @@ MUTANTS["C04"] = [
     ("ros-join-grandparent-path", "annet/annlib/tabparser.py", "                    if context and context.row:\n                        prev_prow, prev_prow_context = context.current\n                        prow = f\"{context.row} {row}\"", "                    if context and context.parent and context.parent.row:\n                        prev_prow, prev_prow_context = context.parent.current\n                        prow = f\"{context.parent.row} {row}\""),
     ("remove-spaces-eats-leading", "annet/annlib/tabparser.py", 'text = re.sub(r"(?<=\\S)\\ {2,}(?=\\S)", " ", text)', 'text = re.sub(r"\\ {3,}(?=\\S)", " ", text)'),
 ]
+
+MUTANTS["C11"] = [
+    ("huawei-all-shortcut-ignores-unchanged", "annet/rulebook/huawei/vlandb.py", "    if diff[Op.REMOVED] and not diff[Op.ADDED] and not diff[Op.UNCHANGED]:", "    if diff[Op.REMOVED] and not diff[Op.ADDED]:"),
+    ("huawei-removed-is-old", "annet/rulebook/huawei/vlandb.py", "    removed = old.difference(new)\n    added = new.difference(old)\n\n    if removed:\n        collapsed = collapse_vlandb(removed)", "    removed = old\n    added = new.difference(old)\n\n    if removed:\n        collapsed = collapse_vlandb(removed)"),
+    ("huawei-chunk-slice", "annet/rulebook/huawei/vlandb.py", "        yield items[offset:offset + size]", "        yield items[offset:offset + size - (1 if offset else 0)]"),
+    ("cisco-add-keyword-dropped", "annet/rulebook/cisco/vlandb.py", '" add " if explicit_changing else " "', '" "'),
+    ("cisco-none-on-remove-only", "annet/rulebook/cisco/vlandb.py", "    if len(diff[Op.ADDED]) == 1 and len(new) == 0:", "    if explicit_changing and len(new) == 0:"),
+    ("collapse-pair-off-by-one", "annet/annlib/lib.py", "            res.append([row[0], row[0]])\n            res.append([row[1], row[1]])", "            res.extend([v, v] for v in range(row[0], row[1]))"),
+    ("huawei-expand-to-exclusive", "annet/annlib/lib.py", "            expanded = expanded.union(range(left + 1, right))", "            expanded = expanded.union(range(left + 2, right))"),
+]
